@@ -248,3 +248,24 @@ def guarded(flow: Flow, at: list, wants: list[tuple[str, Poly]], exc: str | None
                 if r is None or exc not in r:
                     why.append(f"violating `{f.text()}` does not raise {exc}")
     return not why, why
+
+
+def _canon_fact(expr: ast.AST, pol: bool) -> tuple[bool, str]:
+    """(polarity, canonical text) with negative comparison operators turned positive."""
+    e = expr
+    pos = {ast.NotEq: ast.Eq, ast.IsNot: ast.Is, ast.NotIn: ast.In}
+    if isinstance(e, ast.Compare) and len(e.ops) == 1 and type(e.ops[0]) in pos:
+        e = ast.Compare(left=e.left, ops=[pos[type(e.ops[0])]()], comparators=e.comparators)
+        pol = not pol
+    return pol, PolyEnv().poly(e).canon()
+
+
+def holds(pc: PathConditions, node, text: str) -> Fact | None:
+    """The condition given as source text (`axis is None`, `not keepdims`, `mode != 'basic'`) is known at node."""
+    want = _canon_fact(*[(e, p) for e, p in split(ast.parse(text, mode="eval").body, True)][0]) if len(split(ast.parse(text, mode="eval").body, True)) == 1 else None
+    if want is None:
+        raise ValueError(f"holds(): `{text}` is not an atomic condition")
+    for f in pc.facts_at(node):
+        if _canon_fact(f.expr, f.pol) == want:
+            return f
+    return None
